@@ -27,6 +27,11 @@ fn main() {
     if std::env::var("VCHECK_PANIC_TRACE").is_err() {
         std::panic::set_hook(Box::new(|_| {}));
     }
+    if args[1] == "C18LEG" {
+        let rows = props::c18::leg(args[2] == "thorough");
+        println!("{}", serde_json::to_string(&rows).unwrap());
+        return;
+    }
     if args[1] == "replay" {
         std::process::exit(replay::run(&args[2]));
     }
@@ -71,6 +76,10 @@ fn main() {
             props::c13::run(ctx);
             ctx.finish(props::c13::RULE, props::c13::ASSUME)
         }
+        "C14" => {
+            props::c14::run(ctx);
+            ctx.finish(props::c14::RULE, props::c14::ASSUME)
+        }
         "C15" => {
             props::c15::run(ctx);
             ctx.finish(props::c15::RULE, props::c15::ASSUME)
@@ -79,13 +88,21 @@ fn main() {
             props::c16::run(ctx);
             ctx.finish(props::c16::RULE, props::c16::ASSUME)
         }
+        "C18" => {
+            props::c18::run(ctx);
+            ctx.finish(props::c18::RULE, props::c18::ASSUME)
+        }
         "C17" => {
             props::c17::run(ctx);
             ctx.finish(props::c17::RULE, props::c17::ASSUME)
         }
-        "C01" | "C02" | "C03" | "C04T" | "C05" => {
+        "C04" => {
+            props::c04::run(ctx);
+            ctx.finish(props::c04::RULE, props::c04::ASSUME)
+        }
+        "C01" | "C02" | "C03" | "C05" => {
             use props::tseq::P;
-            let p = match args[1].as_str() { "C01" => P::C01, "C02" => P::C02, "C03" => P::C03, "C04T" => P::C04, _ => P::C05 };
+            let p = match args[1].as_str() { "C01" => P::C01, "C02" => P::C02, "C03" => P::C03, _ => P::C05 };
             props::tseq::run(ctx, p);
             ctx.finish(props::tseq::rule(p), props::tseq::ASSUME)
         }
